@@ -76,9 +76,17 @@ func runC05(c *core.Ctx) {
 				owner[fl] = h
 			}
 		}
+		forced := map[*ast.FuncLit]bool{}
 		for _, rc := range nodeRunCalls(p, fn) {
 			if rc.Produce != nil && len(getLitBinds(rc.Produce)) > 0 {
 				candidates = append(candidates, rc.Produce)
+				// a callback that is a method value of a state object: what it emits through and compares with are
+				// fields of that object — it is a candidate as such, the interpretation decides
+				if s.emit == "value:produce" {
+					if _, isSel := core.Unparen(rc.Call.Args[1]).(*ast.SelectorExpr); isSel {
+						forced[rc.Produce] = true
+					}
+				}
 			}
 		}
 		for _, fl := range candidates {
@@ -111,7 +119,7 @@ func runC05(c *core.Ctx) {
 				}
 				return true
 			})
-			if emits && mentionsLimit {
+			if (emits && mentionsLimit) || forced[fl] {
 				lits = append(lits, fl)
 			}
 		}
@@ -165,13 +173,17 @@ func checkLimitLiteral(c *core.Ctx, p *core.Program, fn *core.FuncRef, lit *ast.
 	// which operand of a comparison is the limit: its text names the limit, or it is a variable of the enclosing
 	// function that (through up to three single assignments) was computed from something that does
 	limitVars := limitDerivedVars(fn)
+	// an operand names the limit when one of its identifiers is `limit`, is built from that word (limitValue,
+	// maxLimit — not `limited`), or is a variable derived from the limit
 	isLimit := func(x string) bool {
-		lx := strings.ToLower(x)
-		if strings.Contains(lx, "limit") {
-			return true
-		}
-		for v := range limitVars {
-			if regexp.MustCompile(`(^|[^A-Za-z0-9_])` + regexp.QuoteMeta(v) + `($|[^A-Za-z0-9_])`).MatchString(x) {
+		for _, tok := range identRE.FindAllString(x, -1) {
+			lt := strings.ToLower(tok)
+			switch {
+			case lt == "limit", limitVars[tok]:
+				return true
+			case strings.HasSuffix(tok, "Limit"):
+				return true
+			case strings.HasPrefix(lt, "limit") && len(tok) > 5 && (tok[5] >= 'A' && tok[5] <= 'Z' || tok[5] == '_' || tok[5] >= '0' && tok[5] <= '9'):
 				return true
 			}
 		}
@@ -242,6 +254,27 @@ func checkLimitLiteral(c *core.Ctx, p *core.Program, fn *core.FuncRef, lit *ast.
 				st.Emit("INC "+obj.Name(), 0)
 				// two increments without a test in between: the verdict is already determined;
 				// stop exploring (answer every further undecided condition with false)
+				n := 0
+				for i := len(st.Events) - 1; i >= 0; i-- {
+					if strings.HasPrefix(st.Events[i].Name, "TEST") {
+						break
+					}
+					if strings.HasPrefix(st.Events[i].Name, "INC") {
+						n++
+					}
+				}
+				if n >= 2 {
+					st.Emit("RUNAWAY", 0)
+				}
+			}
+		}
+		// a counter kept in a field of a state object
+		in.Hooks.FieldStore = func(st *absint.State, base absint.Val, field string, old, v absint.Val) {
+			if old == nil || v == nil {
+				return
+			}
+			if v.Canon() == "("+old.Canon()+" + 1)" || v.Canon() == "(1 + "+old.Canon()+")" {
+				st.Emit("INC "+field, 0)
 				n := 0
 				for i := len(st.Events) - 1; i >= 0; i-- {
 					if strings.HasPrefix(st.Events[i].Name, "TEST") {
@@ -425,7 +458,13 @@ func limitDerivedVars(fn *core.FuncRef) map[string]bool {
 			for _, r := range as.Rhs {
 				rhs += " " + core.ExprStr(r)
 			}
-			derived := strings.Contains(strings.ToLower(rhs), "limit")
+			derived := false
+			for _, tok := range identRE.FindAllString(rhs, -1) {
+				lt := strings.ToLower(tok)
+				if lt == "limit" || strings.HasSuffix(tok, "Limit") || (strings.HasPrefix(lt, "limit") && len(tok) > 5 && tok[5] >= 'A' && tok[5] <= 'Z') {
+					derived = true
+				}
+			}
 			for v := range out {
 				if regexp.MustCompile(`(^|[^A-Za-z0-9_])` + regexp.QuoteMeta(v) + `($|[^A-Za-z0-9_])`).MatchString(rhs) {
 					derived = true
@@ -436,6 +475,18 @@ func limitDerivedVars(fn *core.FuncRef) map[string]bool {
 			}
 			for _, l := range as.Lhs {
 				if id, ok := l.(*ast.Ident); ok && id.Name != "_" && id.Name != "err" {
+					// a variable that holds the limit's value (a number, an octosql value, a pointer to a number) —
+					// not an object that merely keeps it among other state
+					if o := fn.Info().Defs[id]; o != nil {
+						t := o.Type()
+						if pt, ok := t.Underlying().(*types.Pointer); ok {
+							t = pt.Elem()
+						}
+						_, basic := t.Underlying().(*types.Basic)
+						if !basic && !strings.HasSuffix(t.String(), "octosql.Value") {
+							continue
+						}
+					}
 					out[id.Name] = true
 				}
 			}
